@@ -249,6 +249,21 @@ pub fn check_fill(c: &FillCase) -> CheckResult {
     }
     o.nontrivial = ins > 0 && outs > 0;
     o.class_if(c.path.has_curves(), "curves");
+    {
+        let mut cur: Option<(f32, f32)> = None;
+        let mut hit = false;
+        for op in &c.path.ops {
+            match *op {
+                POp::M(x, y) | POp::L(x, y) | POp::Q(_, _, x, y) => cur = Some((x, y)),
+                POp::C(a, b, cc, d, x, y) => {
+                    hit |= (cur == Some((a, b))) != ((cc, d) == (x, y));
+                    cur = Some((x, y));
+                }
+                POp::Z => {}
+            }
+        }
+        o.class_if(hit, "cubic-with-one-control-point-on-its-end-point");
+    }
     o.class_if(c.path.evenodd, "evenodd");
     Ok(o)
 }
@@ -259,7 +274,43 @@ fn fill_strategy() -> BoxedStrategy<FillCase> {
         1 => poly_path(16.0),
         1 => (curvy_path(16.0), poly_path(16.0)).prop_map(|(a, b)| PathSpec { ops: [a.ops, b.ops].concat(), evenodd: a.evenodd }),
     ]
-    .prop_map(|path| FillCase { path })
+    .prop_map(|mut path| {
+        // coincidences random floats never produce: a control point exactly on the curve's own start or end
+        // point (one of them: the curve still bulges away from its chord)
+        let mut cur: Option<(f32, f32)> = None;
+        let mut start: Option<(f32, f32)> = None;
+        for (k, op) in path.ops.iter_mut().enumerate() {
+            match op {
+                POp::M(x, y) => {
+                    cur = Some((*x, *y));
+                    start = cur;
+                }
+                POp::L(x, y) => {
+                    if cur.is_none() {
+                        start = Some((*x, *y));
+                    }
+                    cur = Some((*x, *y));
+                }
+                POp::Q(_, _, x, y) => cur = Some((*x, *y)),
+                POp::C(a, b, cc, d, x, y) => {
+                    match (k % 4, cur) {
+                        (0, Some(p)) => {
+                            *a = p.0;
+                            *b = p.1;
+                        }
+                        (1, _) => {
+                            *cc = *x;
+                            *d = *y;
+                        }
+                        _ => {}
+                    }
+                    cur = Some((*x, *y));
+                }
+                POp::Z => cur = start,
+            }
+        }
+        FillCase { path }
+    })
     .boxed()
 }
 
